@@ -183,6 +183,7 @@ class RequestHandler(BaseProtocol, Generic[_Request]):
         "_max_msg_queue_size",
         "_msg_queue_resume_size",
         "_msg_queue_paused",
+        "_parse_failed",
         "_message_tail",
         "_read_bufsize",
         "_handler_waiter",
@@ -231,6 +232,7 @@ class RequestHandler(BaseProtocol, Generic[_Request]):
         # Set before super().__init__ so _reading_paused_for_msg_queue() is safe
         # if BaseProtocol ever triggers a resume during init.
         self._msg_queue_paused = False
+        self._parse_failed = False
         parser = HttpRequestParser(
             self,
             loop,
@@ -504,10 +506,16 @@ class RequestHandler(BaseProtocol, Generic[_Request]):
         # parse http messages
         messages: Sequence[_MsgType]
         if self._payload_parser is None and not self._upgraded:
+            if self._parse_failed:
+                # The queued 400 closes the connection: the parser has lost
+                # its place in the stream and is not fed again.
+                return
             assert self._parser is not None
             try:
                 messages, upgraded, tail = self._parser.feed_data(data)
             except HttpProcessingError as exc:
+                self._parse_failed = True
+                self._pause_msg_queue_reading()
                 messages = [
                     (_ErrInfo(status=400, exc=exc, message=exc.message), EMPTY_PAYLOAD)
                 ]
@@ -938,6 +946,7 @@ class RequestHandler(BaseProtocol, Generic[_Request]):
                         self._message_tail
                     )
                 except HttpProcessingError as parse_exc:
+                    self._parse_failed = True
                     # Garbage (or an oversized request line) buffered behind the
                     # upgrade: answer 400 instead of letting the error escape
                     # and lose this response, like data_received() does.
